@@ -349,7 +349,7 @@ func (s *srvConn) serve(cfg *negCfg, r *negRec) {
 					r.AuthPayload = u.raw[i+1 : j]
 				}
 			}
-			a := cfg.pick("auth", "success", "failure", "stream-error", "unexpected", "malformed", "truncated", "close", "success-pipelined", "success-with-data", "success-unclosed")
+			a := cfg.pick("auth", "success", "failure", "stream-error", "unexpected", "malformed", "truncated", "close", "success-pipelined", "success-with-data", "success-unclosed", "failure-text", "failure-expired-text", "failure-disabled")
 			r.answer("auth", a, strings.HasPrefix(a, "success") && a != "success-unclosed")
 			switch a {
 			case "success", "success-with-data":
@@ -378,6 +378,13 @@ func (s *srvConn) serve(cfg *negCfg, r *negRec) {
 				continue
 			case "failure":
 				s.send("<failure xmlns='" + nsSASL + "'><not-authorized/></failure>")
+			case "failure-text":
+				// the optional descriptive text after the condition (RFC 6120 6.5), as most servers send it
+				s.send("<failure xmlns='" + nsSASL + "'><not-authorized/><text xml:lang='en'>Invalid username or password</text></failure>")
+			case "failure-expired-text":
+				s.send("<failure xmlns='" + nsSASL + "'><credentials-expired/><text xml:lang='en'>Password expired</text></failure>")
+			case "failure-disabled":
+				s.send("<failure xmlns='" + nsSASL + "'><account-disabled/></failure>")
 			case "stream-error":
 				s.send("<stream:error><host-unknown xmlns='urn:ietf:params:xml:ns:xmpp-streams'/></stream:error>")
 			case "unexpected":
